@@ -35,7 +35,7 @@ ASSUMPTIONS = [
 SHARDS = {"quick": 16, "thorough": 16}
 TIMEOUT = {"quick": 900, "thorough": 7200}
 MIN_CASES = {"quick": 4000, "thorough": 80000}
-REQUIRED_COUNTERS = ["events_sent", "listener_logs_checked", "reconnects_checked", "resubscriptions_verified", "raising_listener_isolated", "polling_fallback_histories", "connection_back_events", "reads_with_complete_and_partial_frame", "subscribe_answered_207", "chunked_events_sent", "coap_event_entries_delivered"]
+REQUIRED_COUNTERS = ["events_sent", "listener_logs_checked", "reconnects_checked", "resubscriptions_verified", "raising_listener_isolated", "polling_fallback_histories", "connection_back_events", "reads_with_complete_and_partial_frame", "subscribe_answered_207", "chunked_events_sent", "coap_event_entries_delivered", "ble_handle_lookups_checked"]
 
 ALPHABET = "abcwuvlxrDSZOetpfmnjq"
 SUB_A = [(1, 9), (1, 10)]
@@ -402,6 +402,82 @@ async def run_one(ctx, actions: str, key) -> None:
     await History(ctx, actions, key).run()
 
 
+async def ble_handle_part(ctx) -> None:
+    """BLE: notifications are enabled per GATT handle, and the handle for a subscribed characteristic is looked up through the
+    real AIOHomeKitBleakClient.get_characteristic (service uuid, characteristic uuid, instance id). Accessories with several
+    services of one type (a double outlet, a multi-button remote) have several handles with the SAME two uuids: each
+    subscribed instance id must resolve to ITS handle, in every order of asking and on repeated asking (the per-connection
+    look-up cache), or one characteristic's events are never enabled while another's are enabled twice."""
+    from aiohomekit.controller.ble.bleak import CHAR_DESCRIPTOR_UUID, AIOHomeKitBleakClient
+
+    class Desc:
+        def __init__(self, handle):
+            self.uuid = str(CHAR_DESCRIPTOR_UUID)
+            self.handle = handle
+
+    class Char:
+        def __init__(self, uuid, handle, iid):
+            self.uuid, self.handle, self.iid = uuid, handle, iid
+            self.max_write_without_response_size = None
+            self._desc = Desc(handle + 1)
+
+        def get_descriptor(self, uuid):
+            return self._desc if str(uuid).lower() == self._desc.uuid.lower() else None
+
+    class Svc:
+        def __init__(self, uuid, chars):
+            self.uuid, self.characteristics = uuid, chars
+
+    class Services:
+        def __init__(self, svcs):
+            self.services = dict(enumerate(svcs))
+
+    class Client(AIOHomeKitBleakClient):
+        def __init__(self, svcs):  # no radio: only the look-up helpers of the real class are used
+            self._AIOHomeKitBleakClient__name = "sim"
+            self._char_cache = {}
+            self._iid_cache = {}
+            self._sim = Services(svcs)
+            self._by_desc = {c._desc.handle: c for s_ in svcs for c in s_.characteristics}
+
+        services = property(lambda self: self._sim)
+
+        async def read_gatt_descriptor(self, handle):
+            return bytearray(self._by_desc[handle].iid.to_bytes(2, "little"))
+
+    OUTLET, ON, INUSE = "00000047-0000-1000-8000-0026BB765291", "00000025-0000-1000-8000-0026BB765291", "00000026-0000-1000-8000-0026BB765291"
+    for k in range(ctx.pick(40, 2000)):
+        if not ctx.mine(k):
+            continue
+        rng = ctx.grng("C12.ble-handles", k)
+        n_svc = rng.choice([1, 2, 2, 3, 4])
+        svcs, chars, handle, iid = [], [], 30, 10
+        for _ in range(n_svc):
+            cs = []
+            for uuid in (ON, INUSE):
+                cs.append(Char(uuid if rng.random() < 0.5 else uuid.lower(), handle, iid))
+                handle += 3
+                iid += rng.choice([1, 1, 2, 250])
+            svcs.append(Svc(OUTLET if rng.random() < 0.5 else OUTLET.lower(), cs))
+            chars += cs
+        client = Client(svcs)
+        asks = [c for c in chars for _ in range(rng.choice([1, 2]))]
+        rng.shuffle(asks)
+        ctx.case("ble-handles", k, sample={"transport": "ble", "services_of_one_type": n_svc, "lookups": [c.iid for c in asks]}, kind="ble-handles")
+        replay = {"t": "ble-handles", "k": k}
+        for c in asks:
+            spelling = rng.choice([str.upper, str.lower, lambda x: x])
+            try:
+                got = await client.get_characteristic(spelling(OUTLET), spelling(c.uuid), c.iid)
+            except Exception as ex:  # noqa: BLE001
+                ctx.violation(f"ble-handle-lookup-raises-{type(ex).__name__}", f"{n_svc} services of one type; instance id {c.iid}: {ex!r}", replay)
+                return
+            if got is not c:
+                ctx.violation("ble-events-enabled-on-wrong-handle", f"{n_svc} services of one type, look-ups {[x.iid for x in asks]}: instance id {c.iid} resolved to handle {got.handle} (instance id {got.iid}), its own handle is {c.handle}", replay)
+                return
+        ctx.count("ble_handle_lookups_checked", len(asks))
+
+
 def run(ctx) -> None:
     from vf import vloop
 
@@ -424,6 +500,7 @@ def run(ctx) -> None:
         from vf import sim_coap
 
         await sim_coap.c12_part(ctx)
+        await ble_handle_part(ctx)
 
     vloop.run(main())
 
@@ -436,5 +513,9 @@ def replay(ctx, d) -> None:
 
         ctx.shard, ctx.nshards = 0, 1
         vloop.run(sim_coap.c12_part(ctx))
+        return
+    if d.get("t") == "ble-handles":
+        ctx.shard, ctx.nshards = 0, 1
+        vloop.run(ble_handle_part(ctx))
         return
     vloop.run(run_one(ctx, d["actions"], "replay"))
